@@ -205,9 +205,7 @@ SIMPLE_TYPES = ['key', 'unit', 'signature', 'operation', 'int', 'nat', 'string',
 UNARY_TYPES = ['option', 'list', 'set', 'contract', 'ticket']
 BINARY_TYPES = ['or', 'map', 'big_map', 'lambda']
 SIZED_TYPES = ['sapling_state', 'sapling_transaction', 'sapling_transaction_deprecated']
-# applications with arguments that valid Michelson puts in argument position but is_framed does not
-# know (defect #44, known finding `unframed-arg-prims` until fixed)
-UNFRAMED_ARG_PRIMS = ('constant', 'Lambda_rec', 'Ticket')
+# (constant, Lambda_rec, Ticket applications in argument position: defect #44, fixed by 107d189, still generated)
 
 ANNOT_BODY = '_.0123456789abcdefghijklmnopqrstuvwxyzABCDEFGHIJKLMNOPQRSTUVWXYZ'
 
@@ -292,7 +290,7 @@ class Gen:
             return self.prim(r.choice(UNARY_TYPES), [self.type_(d - 1)], self.annots())
         if k < 0.9:
             return self.prim(r.choice(BINARY_TYPES), [self.type_(d - 1), self.type_(d - 1)], self.annots())
-        if k < 0.96 or not self.allow_findings:
+        if k < 0.96:
             return self.prim(r.choice(SIZED_TYPES), [{'int': str(r.choice([0, 8, 32]))}], self.annots())
         return self.prim('constant', [{'string': 'expruu5BTdW7ajqJ9XPTF3kgcV78pRiaBW3Gq31mgp3WSYjjUBYxre'}])
 
@@ -314,8 +312,6 @@ class Gen:
             return [self.prim('Elt', [self.data(d - 1, wide), self.data(d - 1, wide)]) for _ in range(r.choice([1, 2, 3]))]
         if k < 0.92:
             return self.code(d - 1)
-        if not self.allow_findings:
-            return self.leaf(wide)
         if k < 0.95:
             return self.prim('Lambda_rec', [self.code(d - 1)])
         if k < 0.98:
@@ -403,6 +399,66 @@ class Gen:
         return self.prim(r.choice(self.all_prims), [self.wild(d - 1) for _ in range(r.choice([0, 1, 1, 2, 3]))], self.annots(0.3))
 
 
+def sweep():
+    """deterministic boundary cases, every run: every type primitive bare / annotated / applied in argument position,
+    every data constructor in argument position, every instruction primitive bare and annotated, every character
+    0..255 inside a string, small and boundary integers, sequences nested in every position"""
+    P = Gen.prim
+    out = []
+    for t in SIMPLE_TYPES:
+        out.append(('sweep-type', P('option', [P(t)])))
+        out.append(('sweep-type', P('option', [P(t, annots=['%a'])])))
+        out.append(('sweep-type', P('pair', [P(t, annots=[':t', '%f']), P(t)], ['%p'])))
+        out.append(('sweep-type', P('PUSH', [P(t, annots=['@v']), {'int': '0'}])))
+        out.append(('sweep-type', P(t, annots=['%root'])))
+    nat, intt = P('nat'), P('int', annots=['%i'])
+    comp = [P(u, [nat]) for u in UNARY_TYPES] + [P(b, [nat, intt]) for b in BINARY_TYPES] + \
+           [P('pair', [nat, intt]), P('pair', [nat, intt, nat]), P('pair', [nat, intt, nat, nat])] + [P(z, [{'int': '8'}]) for z in SIZED_TYPES]
+    for c in comp:
+        out.append(('sweep-type', P('list', [c])))
+        out.append(('sweep-type', P('list', [P(c['prim'], c['args'], ['%a'])], [':l'])))
+        out.append(('sweep-type', P('lambda', [c, c])))
+        out.append(('sweep-type', P('NIL', [c])))
+        out.append(('sweep-type', [P('parameter', [c]), P('storage', [P(c['prim'], c['args'], ['%s'])]), P('code', [[P('NIL', [c])]])]))
+    one, neg = {'int': '1'}, {'int': '-1'}
+    for d in [P('Pair', [one, neg]), P('Pair', [one, neg, one]), P('Left', [one]), P('Right', [neg]), P('Some', [one])]:
+        out.append(('sweep-data', P('Some', [d])))
+        out.append(('sweep-data', P('Pair', [d, d])))
+        out.append(('sweep-data', P('PUSH', [P('nat'), d])))
+        out.append(('sweep-data', [d, d]))
+        out.append(('sweep-data', [P('Elt', [d, d])]))
+        out.append(('sweep-data', d))
+    for d in ['Unit', 'True', 'False', 'None']:
+        out.append(('sweep-data', P('Pair', [P(d), P('Some', [P(d)])])))
+    seqs = [[], [[]], [[], []], [[[]]], [one], [[one]], [[one], one], [one, [one]], [[one, neg]], [[one, neg], []], [[[one], neg], one]]
+    for q in seqs:
+        out.append(('sweep-seq', q))
+        out.append(('sweep-seq', P('Pair', [q, q])))
+        out.append(('sweep-seq', P('DIP', [q])))
+        out.append(('sweep-seq', P('IF', [q, []])))
+        out.append(('sweep-seq', [P('PUSH', [P('list', [P('nat')]), q]), P('DROP')]))
+        out.append(('sweep-seq', P('Some', [q])))
+    for name in sorted(tags()):
+        if name[0] == '_':
+            continue
+        out.append(('sweep-prim', [P(name, annots=['%a', '@b']), P(name)]))
+        out.append(('sweep-prim', P(name, [[P(name)], {'int': '1'}], [':t'])))
+        out.append(('sweep-prim', P('Pair', [P(name), P(name)])))
+    for base in range(0, 256, 16):
+        out.append(('sweep-string', {'string': ''.join(chr(c) for c in range(base, base + 16))}))
+        out.append(('sweep-string', P('Pair', [{'string': ''.join(chr(c) for c in range(base + 15, base - 1, -1))}, {'string': 'x'}])))
+    for c in '"\\\n\r\t\b\f/\x00\x1f\x7f\x80\xff #;{}()':
+        out.append(('sweep-string', {'string': c}))
+        out.append(('sweep-string', {'string': 'a' + c}))
+        out.append(('sweep-string', [{'string': c + 'a'}, {'string': c + c}]))
+    for i in list(range(-12, 13)) + [99, 100, 101, -99, -100, -101, 10 ** 18, -10 ** 18, 2 ** 64, -2 ** 64, 10 ** 50, -10 ** 50 - 1]:
+        out.append(('sweep-int', P('Pair', [{'int': str(i)}, {'int': str(-i)}])))
+    for b in ['', '00', 'ff', '0001', 'deadbeef', '00' * 33]:
+        out.append(('sweep-bytes', P('Pair', [{'bytes': b}, {'bytes': b}])))
+        out.append(('sweep-bytes', {'bytes': b}))
+    return out
+
+
 def size(m):
     if isinstance(m, list):
         return 1 + sum(size(x) for x in m)
@@ -425,8 +481,6 @@ def finding_class(e):
     cls = set()
     for n, in_arg in walk(e):
         if isinstance(n, dict) and 'prim' in n:
-            if in_arg and n['prim'] in UNFRAMED_ARG_PRIMS and n.get('args'):
-                cls.add('unframed-arg-prims')
             for a in n.get('annots', []):
                 body = a.lstrip(':@%')
                 if any(c in ':@%' for c in body):
@@ -533,6 +587,72 @@ def roundtrip_oracle(e, inline):
     return text, None
 
 
+def in_domain_root(e):
+    """the root is not a list holding exactly one parameter/storage/code section (prints as the bare section)"""
+    return not (isinstance(e, list) and len(e) == 1 and isinstance(e[0], dict) and e[0].get('prim') in ('parameter', 'storage', 'code'))
+
+
+def candidates(e):
+    """smaller variants of an expression (children hoisted, elements / arguments / annotations dropped,
+    leaves simplified), outermost first"""
+    if isinstance(e, list):
+        for x in e:
+            yield x
+        for i in range(len(e)):
+            yield e[:i] + e[i + 1:]
+        for i, x in enumerate(e):
+            for c in candidates(x):
+                yield e[:i] + [c] + e[i + 1:]
+        return
+    if 'prim' in e:
+        args, annots = e.get('args', []), e.get('annots', [])
+        for x in args:
+            yield x
+        if annots:
+            yield Gen.prim(e['prim'], args, [])
+            for i in range(len(annots)):
+                yield Gen.prim(e['prim'], args, annots[:i] + annots[i + 1:])
+        for i in range(len(args)):
+            yield Gen.prim(e['prim'], args[:i] + args[i + 1:], annots)
+        for i, x in enumerate(args):
+            for c in candidates(x):
+                yield Gen.prim(e['prim'], args[:i] + [c] + args[i + 1:], annots)
+        return
+    if 'string' in e:
+        v = e['string']
+        if len(v) > 1:
+            yield {'string': v[:len(v) // 2]}
+            yield {'string': v[len(v) // 2:]}
+            for i in range(min(len(v), 12)):
+                yield {'string': v[:i] + v[i + 1:]}
+    elif 'int' in e:
+        if e['int'] not in ('0', '-1'):
+            yield {'int': '0'}
+            yield {'int': '-1'}
+    elif 'bytes' in e and e['bytes']:
+        yield {'bytes': ''}
+
+
+def shrink(e, inline, budget=400):
+    """greedy reduction of a failing expression while the round-trip oracle keeps failing (staying inside
+    the domain and outside the known-finding classes)"""
+    def fails(c):
+        if not in_domain_root(c) or finding_class(c):
+            return False
+        return roundtrip_oracle(c, inline)[1] is not None
+    progress = True
+    while progress and budget > 0:
+        progress = False
+        for c in candidates(e):
+            budget -= 1
+            if budget <= 0:
+                break
+            if fails(c):
+                e, progress = c, True
+                break
+    return e
+
+
 def repro(e, inline):
     return ('from pytezos.michelson.format import micheline_to_michelson as f; from pytezos.michelson.parse import '
             f'michelson_to_micheline as p; e={e!r}; assert p(f(e, inline={inline})) == e')
@@ -619,13 +739,15 @@ def run(ctx: lib.Ctx) -> None:
                 for t in doc.get('texts', []):
                     corpus_texts.append(t)
                     ctx.corpus_cases += 1
-    for _ in range(ctx.n(300, 9000)):
+    for kind, e in sweep():
+        exprs.append((kind, e, True))
+    for _ in range(ctx.n(300, 6000)):
         kind, e = gen.root()
         exprs.append((kind, e, True))
-    for _ in range(ctx.n(40, 1200)):
+    for _ in range(ctx.n(40, 800)):
         kind, e = gen.root(wide=True)
         exprs.append((kind + '-wide', e, True))
-    for _ in range(ctx.n(80, 2500)):
+    for _ in range(ctx.n(80, 1500)):
         exprs.append(('wild', gen.wild(rng.choice([1, 2, 3])), False))
 
     texts = {}                         # text -> origin
@@ -635,6 +757,7 @@ def run(ctx: lib.Ctx) -> None:
         ctx.case(key, nontrivial=size(e) >= 3, kind=kind, sample={'kind': kind, 'expr': e} if size(e) < 12 else None)
         lit = cnode(e)
         cls = finding_class(e)
+        seen_text = set()
         for inline in (True, False):
             okf, text = py_format(e, inline)
             if not okf:
@@ -642,11 +765,22 @@ def run(ctx: lib.Ctx) -> None:
                     violate(f'micheline_to_michelson raised {type(text).__name__}: {text}'[:200],
                             {'expr': e, 'inline': inline, 'repro': repro(e, inline)})
                 continue
-            if lit is not None and latin1(text) is not None and 'inner-sigil-annot' not in cls:
+            if lit is not None and latin1(text) is not None and 'inner-sigil-annot' not in cls and text not in seen_text:
                 # (an annotation with an inner sigil is not one ANNOT token: outside fmt_tokens' domain)
                 cases.append(f'CFmt {lit} {cb(latin1(text))}')
                 meta.append(('fmt', e, inline, text))
+                seen_text.add(text)
             texts.setdefault(text, 'formatted')
+            if structured and kind.startswith(('data', 'sweep-data')):
+                # wrap=True only adds one pair of outer parentheses, which the parser strips again
+                okw, tw = lib.call(F.micheline_to_michelson, e, inline=inline, wrap=True)
+                okp, back = py_parse(tw) if okw else (False, None)
+                okq, plain = py_parse(text)
+                if not (okw and okp == okq and (not okp or canon(back) == canon(plain))):
+                    violate('micheline_to_michelson(wrap=True) does not parse to the same expression as wrap=False',
+                            {'expr': e, 'inline': inline, 'text': text, 'wrapped_text': tw if okw else repr(tw),
+                             'repro': 'from pytezos.michelson.format import micheline_to_michelson as f; from pytezos.michelson.parse import '
+                                      f'michelson_to_micheline as p; e={e!r}; assert p(f(e, inline={inline}, wrap=True)) == p(f(e, inline={inline}))'})
             if structured:
                 _, why = roundtrip_oracle(e, inline)
                 if why:
@@ -657,8 +791,13 @@ def run(ctx: lib.Ctx) -> None:
                     elif cls:
                         violate(f'round trip fails (class {sorted(cls)} is not a known finding): {why}',
                                 {'expr': e, 'inline': inline, 'text': text, 'repro': repro(e, inline)})
+                    elif violations < 3:
+                        small = shrink(e, inline)
+                        stext, swhy = roundtrip_oracle(small, inline)
+                        violate(f'parse(format(e)) != e: {swhy}', {'expr': small, 'inline': inline, 'text': stext,
+                                                                  'repro': repro(small, inline), 'original_expr': e})
                     else:
-                        violate(f'parse(format(e)) != e: {why}', {'expr': e, 'inline': inline, 'text': text, 'repro': repro(e, inline)})
+                        violations += 1
     for f in known_hits.values():
         ctx.known_hit(f)
     t_expr = time.time()
@@ -666,7 +805,7 @@ def run(ctx: lib.Ctx) -> None:
     # ---- texts: re-laid-out, mutated, corner cases ------------------------------------------------------
     base = [t for t in texts if len(t) < 600]
     rng.shuffle(base)
-    for t in base[:ctx.n(150, 5000)]:
+    for t in base[:ctx.n(150, 3000)]:
         toks = py_lex(t)
         if not toks:
             continue
@@ -680,7 +819,7 @@ def run(ctx: lib.Ctx) -> None:
                     {'text': t, 'relayout': t2, 'parsed': repr(r1[1])[:300], 'parsed_relayout': repr(r2[1])[:300],
                      'repro': f'from pytezos.michelson.parse import michelson_to_micheline as p; assert p({t!r}) == p({t2!r})'})
     short = [t for t in base if len(t) <= 300] or ['DROP']
-    for i in range(ctx.n(300, 9000)):
+    for i in range(ctx.n(300, 6000)):
         m = mutate(rng, short[i % len(short)])
         if m.count('\\') <= 12:
             texts.setdefault(m, 'mutated')
@@ -701,8 +840,10 @@ def run(ctx: lib.Ctx) -> None:
         meta.append(('txt', t, origin, toks, ok, val))
     t_texts = time.time()
 
+    if os.environ.get('C18_ORACLE_ONLY') == '1':     # debugging aid for mutation triage: skip comparison (A)
+        cases = []
     bad = ctx.coq_mismatches('c', IMPORTS, 'chk', 'Bool.eqb', 'ccase', 'bool', [(c, 'true') for c in cases],
-                             prelude=PRELUDE, shard=max(200, -(-len(cases) // 12)))
+                             prelude=PRELUDE, shard=(500 if ctx.thorough else max(250, -(-len(cases) // 8))))
     ctx.extra['cases_by_kind'] = {k: sum(1 for m in meta if m[0] == k) for k in ('table', 'fmt', 'txt')}
     ctx.extra['timing_s'] = {'expressions+oracle': round(t_expr - t_start, 1), 'texts': round(t_texts - t_expr, 1),
                              'coqc': round(time.time() - t_texts, 1)}
